@@ -211,12 +211,15 @@ impl SnapHook {
                     // h2's own policy: advertise once the unadvertised part reaches half the advertised window
                     window >= 0 && available > window && (available - window) as i64 >= ((window / 2) as i64).max(1)
                 };
-                if owed(s.recv.conn_window, s.recv.conn_available) {
+                // (h2 evaluates the threshold when the application releases: DATA that arrives afterwards lowers the
+                // window and with it the threshold without a new evaluation, so while the application still holds
+                // unreleased data - whose release evaluates again - credit above the threshold is not yet owed)
+                if s.recv.in_flight_data == 0 && owed(s.recv.conn_window, s.recv.conn_available) {
                     Self::fail(st, "C03", "released-connection-credit-unadvertised-at-quiescence", format!("{}: the endpoint is idle with connection recv window={} but available={} (released by the application, above the update threshold) and no WINDOW_UPDATE on its way", side.name(), s.recv.conn_window, s.recv.conn_available));
                 }
                 for x in &s.streams {
                     let recv_open = x.state.starts_with("Open") || x.state.starts_with("HalfClosedLocal");
-                    if recv_open && x.is_recv && owed(x.recv_window, x.recv_available) {
+                    if recv_open && x.is_recv && x.in_flight_recv_data == 0 && owed(x.recv_window, x.recv_available) {
                         Self::fail(st, "C03", "released-stream-credit-unadvertised-at-quiescence", format!("{}: the endpoint is idle with stream {} recv window={} but available={} (released by the application, above the update threshold), queued_for_window_update={}", side.name(), x.id, x.recv_window, x.recv_available, x.is_pending_window_update));
                     }
                 }
